@@ -312,6 +312,18 @@ func Run(cases []reg.Case, out *reg.Out) {
 					out.Cov("budget:none")
 				case *budget >= 1:
 					n := uint64(*budget)
+					nmiss := 0
+					for _, b := range o.Loads {
+						if !have(w.D.Cids[b]) {
+							nmiss++
+						}
+					}
+					if nmiss > 0 {
+						out.Cov("budget:run-with-charged-misses")
+						if o.Out == "budget" {
+							out.Cov("budget:exceeded-with-charged-misses")
+						}
+					}
 					switch {
 					case n == 1:
 						out.Cov("budget:1")
